@@ -32,8 +32,14 @@ NU = "esutil.numpy_util."
 CONVERTERS = ["to_native", "to_big_endian", "to_little_endian", "byteswap"]
 
 
+# rules that keep their verdict however the code is laid out (decided by term equality, effect analysis or dominance over
+# resolved calls); every other rule of this check is a template rule (vcheck.core.Check.obt)
+SEMANTIC = ('R16.1a', 'R16.1b', 'R16.1c', 'R16.1d', 'R16.2', 'R16.3', 'R16.6')
+
+
 def run(chk):
     repo = PyRepo()
+    chk.set_templates(repo, semantic=SEMANTIC)
     eng = effects.Effects(repo, c_summaries())
     chk.explanation = MANIFEST["text"]
     chk.trusted = ["ndarray.byteswap / dtype.newbyteorder semantics", "library semantics table", "CPython ast"]
